@@ -2,7 +2,8 @@
 
     Executable Gallina only (no proofs; the simulation proofs are in UnparseProofs.v).
 
-    An *invocation* of one command level is a list of [item]s.  [render] prints it as the token
+    An *invocation* of one command level is a list of [item]s (flags and options by long name,
+    short clusters optionally ending in an option, runs of positional values).  [render] prints it as the token
     list a user would type; [apply_items] is what the invocation means on a parser state, written
     directly with the parser's own occurrence primitive [react] (one call per occurrence, carrying
     exactly the occurrence's values) and the pending buffer; [occs] is the same meaning as a plain
@@ -33,7 +34,8 @@ Inductive item :=
 | ItLong (n : bytes)                     (* --name              a flag             *)
 | ItLongEq (n : bytes) (v : bytes)        (* --name=VALUE        an option          *)
 | ItLongSep (n : bytes) (vs : list bytes) (* --name V1 .. Vk     an option          *)
-| ItCluster (fl : list N) (t : ctail).    (* -abc[tail]          flags by short name, optionally ending in an option *)
+| ItCluster (fl : list N) (t : ctail)     (* -abc[tail]          flags by short name, optionally ending in an option *)
+| ItPos (vs : list bytes).               (* V1 .. Vk            a maximal run of values of the positional the counter points at *)
 
 (** ** rendering *)
 Definition render_item (it : item) : list bytes :=
@@ -45,6 +47,7 @@ Definition render_item (it : item) : list bytes :=
   | ItCluster fl (TAtt o v) => [DASH :: fl ++ o :: v]
   | ItCluster fl (TEq o v) => [DASH :: fl ++ o :: EQ :: v]
   | ItCluster fl (TSep o vs) => (DASH :: fl ++ [o]) :: vs
+  | ItPos vs => vs
   end.
 Definition render (its : list item) : list bytes := flat_map render_item its.
 
@@ -79,18 +82,27 @@ Definition tail_step (t : ctail) (st : ps) : res ps :=
   | TSep o vs => match get_short c o with Some a => sep_step IShort a vs st | None => ROk st end
   end.
 
-Definition apply_item (it : item) (st : ps) : res ps :=
+(** [pos] is the positional counter of [Parser::parse] when the item starts *)
+Definition apply_item (pos : N) (it : item) (st : ps) : res ps :=
   match it with
   | ItLong n => match get_long c n with Some a => flag_step ILong a st | None => ROk st end
   | ItLongEq n v => match get_long c n with Some a => att_step ILong a v st | None => ROk st end
   | ItLongSep n vs => match get_long c n with Some a => sep_step ILong a vs st | None => ROk st end
   | ItCluster fl t => do st1 <- flags_step fl st; tail_step t st1
+  | ItPos vs => match get_pos c pos with Some a => sep_step IIndex a vs st | None => ROk st end
   end.
 
-Fixpoint apply_items (its : list item) (st : ps) : res ps :=
+(** the positional counter after an item: a positional that is not multiple is left behind *)
+Definition item_pos (pos : N) (it : item) : N :=
+  match it with
+  | ItPos _ => match get_pos c pos with Some a => if a_is_multiple a then pos else pos + 1 | None => pos end
+  | _ => pos
+  end.
+
+Fixpoint apply_items (pos : N) (its : list item) (st : ps) : res ps :=
   match its with
   | [] => ROk st
-  | it :: t => do st1 <- apply_item it st; apply_items t st1
+  | it :: t => do st1 <- apply_item pos it st; apply_items (item_pos pos it) t st1
   end.
 
 (** ** meaning as a list of occurrences (spelling-independent) *)
@@ -103,14 +115,19 @@ Definition tail_occs (t : ctail) : list occ :=
   | TAtt o v | TEq o v => match get_short c o with Some a => [occ_of IShort a [v]] | None => [] end
   | TSep o vs => match get_short c o with Some a => [occ_of IShort a vs] | None => [] end
   end.
-Definition item_occs (it : item) : list occ :=
+Definition item_occs (pos : N) (it : item) : list occ :=
   match it with
   | ItLong n => match get_long c n with Some a => [occ_of ILong a []] | None => [] end
   | ItLongEq n v => match get_long c n with Some a => [occ_of ILong a [v]] | None => [] end
   | ItLongSep n vs => match get_long c n with Some a => [occ_of ILong a vs] | None => [] end
   | ItCluster fl t => flags_occs fl ++ tail_occs t
+  | ItPos vs => match get_pos c pos with Some a => [occ_of IIndex a vs] | None => [] end
   end.
-Definition occs (its : list item) : list occ := flat_map item_occs its.
+Fixpoint occs (pos : N) (its : list item) : list occ :=
+  match its with
+  | [] => []
+  | it :: t => item_occs pos it ++ occs (item_pos pos it) t
+  end.
 
 (** ** the parse state ([ParseState]) after an item *)
 Definition opt_pst (a : arg) (k : nat) : pstate_t :=
@@ -118,23 +135,33 @@ Definition opt_pst (a : arg) (k : nat) : pstate_t :=
   | Some r => if r_accepts_more r (N.of_nat k) then PSOpt (a_id a) else PSValuesDone
   | None => PSValuesDone
   end.
-Definition item_pst (it : item) : pstate_t :=
+Definition item_pst (pos : N) (it : item) : pstate_t :=
   match it with
   | ItLong _ | ItLongEq _ _ => PSValuesDone
   | ItLongSep n vs => match get_long c n with Some a => opt_pst a (length vs) | None => PSValuesDone end
   | ItCluster _ (TSep o vs) => match get_short c o with Some a => opt_pst a (length vs) | None => PSValuesDone end
   | ItCluster _ _ => PSValuesDone
+  | ItPos _ => match get_pos c pos with
+               | Some a => if a_is_multiple a then PSPos (a_id a) else PSValuesDone
+               | None => PSValuesDone end
   end.
-Fixpoint items_pst (pst : pstate_t) (its : list item) : pstate_t :=
-  match its with [] => pst | it :: t => items_pst (item_pst it) t end.
+Fixpoint items_pst (pst : pstate_t) (pos : N) (its : list item) : pstate_t :=
+  match its with [] => pst | it :: t => items_pst (item_pst pos it) (item_pos pos it) t end.
+Fixpoint items_pos (pos : N) (its : list item) : N :=
+  match its with [] => pos | it :: t => items_pos (item_pos pos it) t end.
 
 (** ** the class *)
-(** the command (built): passes the validity gate; no [subcommand_precedence_over_arg]; no argument
-    with hyphen/negative-number values, [require_equals] or a value terminator *)
+(** the command (built): passes the validity gate; no [subcommand_precedence_over_arg], no
+    [allow_missing_positional]; only the last positional may be multiple; no argument with
+    hyphen/negative-number values, [require_equals], a value terminator, [last] or [trailing_var_arg] *)
 Definition conv_arg (a : arg) : bool :=
-  negb (a_hyphen a) && negb (a_negnum a) && negb (a_req_eq a) && negb (is_some (a_term a)).
+  negb (a_hyphen a) && negb (a_negnum a) && negb (a_req_eq a) && negb (is_some (a_term a))
+  && negb (a_last a) && negb (a_tva a).
+Definition low_index_multiple : bool :=
+  existsb (fun a => a_is_multiple a && negb (positional_count c =? opt_default 0 (a_index a))) (positionals c).
 Definition conv : bool :=
-  assert_app c && negb (is_set s_sub_precedence c) && forallb conv_arg (c_args c).
+  assert_app c && negb (is_set s_sub_precedence c) && forallb conv_arg (c_args c)
+  && negb (is_set s_allow_missing_pos c) && negb low_index_multiple.
 
 (** a token that is not recognised as a subcommand name, whatever was seen before *)
 Definition nosub (tok : bytes) : bool :=
@@ -162,7 +189,17 @@ Definition wf_tail (t : ctail) : bool :=
   | TEq o v => short_ok o && is_opt (get_short c o)
   | TSep o vs => short_ok o && sep_ok (get_short c o) vs
   end.
-Definition wf_item (it : item) : bool :=
+(** a run of positional values: the counter points at a positional; the run does not follow an
+    option that is still open, nor (maximality) a run of the same multi-valued positional; a
+    positional that takes one value per occurrence gets one *)
+Definition pos_ok (pst : pstate_t) (o : option arg) (vs : list bytes) : bool :=
+  match o with
+  | Some a => negb (is_nil vs) && forallb value_ok vs
+              && (a_multiple_values a || (length vs =? 1)%nat)
+              && match pst with PSValuesDone => true | PSOpt _ => false | PSPos _ => negb (a_multiple_values a) end
+  | None => false
+  end.
+Definition wf_item (pst : pstate_t) (pos : N) (it : item) : bool :=
   forallb nosub (firstn 1 (render_item it)) &&
   match it with
   | ItLong n => name_ok n && is_flag (get_long c n)
@@ -171,7 +208,12 @@ Definition wf_item (it : item) : bool :=
   | ItCluster fl t =>
       forallb (fun ch => short_ok ch && is_flag (get_short c ch)) fl && wf_tail t
       && negb (is_nil fl && match t with TNone => true | _ => false end)
+  | ItPos vs => pos_ok pst (get_pos c pos) vs
   end.
-Definition wf_items (its : list item) : bool := forallb wf_item its.
+Fixpoint wf_items (pst : pstate_t) (pos : N) (its : list item) : bool :=
+  match its with
+  | [] => true
+  | it :: t => wf_item pst pos it && wf_items (item_pst pos it) (item_pos pos it) t
+  end.
 
 End Sem.
